@@ -63,7 +63,7 @@ def cfg_with(ck, base_cfg, name, extra_lines=("CONSTRAINT Emit",), replace=None)
 
 def model_violation(ck, res, what):
     st = res.error_trace[-1][1] if res.error_trace else {}
-    ck.violation("model:%s:%s" % (what, res.violated), "TLC: %s violated on %s (%s)" % (res.violated, what, str(st)[:300]),
+    report(ck, "model:%s:%s" % (what, res.violated), "TLC: %s violated on %s (%s)" % (res.violated, what, str(st)[:300]),
                  {"tlc": res.error_text[:3000]})
 
 
@@ -243,12 +243,12 @@ def direction_a_seg(ck, dev, fut):
                 continue
             case = {"kind": "decode", "cmap": name, "data": data, "expected": exp_i, "observed": real}
             if real == exp_c:
-                ck.violation("dev:IdentityOddRaises", "CMapDB.get_cmap(%r).decode(%s) raises %s; expected CIDs %s (odd final byte "
+                report(ck, "dev:IdentityOddRaises", "CMapDB.get_cmap(%r).decode(%s) raises %s; expected CIDs %s (odd final byte "
                              "ignored)" % (name, data.hex(), real[0], exp_i[1]), case)
             else:
-                ck.violation("decode:%s:%s" % (fam, "error" if real[0] != "none" else "cids"),
+                report(ck, "decode:%s:%s" % (fam, "error" if real[0] != "none" else "cids"),
                              "CMapDB.get_cmap(%r).decode(%s) = %s, expected %s" % (name, data.hex(), real, exp_i), case)
-        if n % 1500 == 11:
+        if n % 1500 == 11 and len(ck.samples) < 2:
             name, b, trie = binds[fam][0]
             ck.sample({"family": fam, "abstract_string": s, "cmap": name, "bytes": bytes(b[x] for x in s).hex(),
                        "model_codes": r["i"]["out"], "real_cids": real_decode(name, bytes(b[x] for x in s))[1]})
@@ -334,7 +334,7 @@ def direction_a_seg_docs(ck, seginfo, ppool):
         total += n
         ck.case(n, ("SD", job[2], json.dumps(job[3], sort_keys=True)))
         for key, what, detail in findings:
-            ck.violation(key, what, dict(detail, kind="segdoc"))
+            report(ck, key, what, dict(detail, kind="segdoc"))
     ck.replayed += len(jobs)
     ck.extra["strings_shown_through_documents"] = total
 
@@ -435,10 +435,10 @@ def direction_a_tounicode(ck, futs, ppool):
             for (r, _wd), findings in zip(chunk, results):
                 k += 1
                 for key, what, detail in findings:
-                    ck.violation(key, what, {"kind": "tounicode", "entries": r["e"], "detail": detail})
+                    report(ck, key, what, {"kind": "tounicode", "entries": r["e"], "detail": detail})
                 nontriv = any(e["t"].startswith("bf") for e in r["e"]) and any(v for (_c, v) in pairs(r["m"]))
                 ck.case(1, ("T", brief_entries(r["e"])) if nontriv else None)
-                if k % 1300 == 9:
+                if k % 1300 == 9 and len(ck.samples) < 4:
                     ck.sample({"tounicode_sections": brief_entries(r["e"]),
                                "model_map": {("%04X" % c): bytes(v).hex() for (c, v) in pairs(r["m"]) if v}})
         total += len(recs)
@@ -538,10 +538,10 @@ def direction_a_widths(ck, futs, ppool):
                 k += 1
                 drift += d
                 for key, what, detail in findings:
-                    ck.violation(key, what, {"kind": "widths", "mode": r["mode"], "array": r["a"], "wf": r["wf"]})
+                    report(ck, key, what, {"kind": "widths", "mode": r["mode"], "array": r["a"], "wf": r["wf"]})
                 nontriv = r["wf"] and any(v for (_c, v) in pairs(r["t"]))
                 ck.case(1, ("W", r["mode"], json.dumps(py_array(r["a"]))) if nontriv else None)
-                if k % 2500 == 17:
+                if k % 700 == 17 and len(ck.samples) < 5:
                     ck.sample({"mode": r["mode"], "array": py_array(r["a"]), "well_formed": r["wf"],
                                "model_table": {str(c): v for (c, v) in pairs(r["t"]) if v}})
         total += len(recs)
@@ -600,11 +600,11 @@ def direction_a_placement(ck, fut):
                     ok = close(g[1], adv) and close(g[2][4], 100 + at) and close(g[2][5], y0)
             ck.case(1, ("P", sid, tuple(r["cids"])) if len(r["cids"]) > 1 else None)
             if not ok:
-                ck.violation("placement:%s" % ("vertical" if vertical else "horizontal"),
+                report(ck, "placement:%s" % ("vertical" if vertical else "horizontal"),
                              "setup %s showing CIDs %s: glyphs (adv, matrix) %s, model %s" % (
                                  sid, r["cids"], [(g[1], g[2][4:]) for g in got], r["g"]),
                              {"kind": "placement", "setup": sid, "cids": r["cids"]})
-            if i % 97 == 5:
+            if i % 97 == 5 and len(ck.samples) < 6:
                 ck.sample({"setup": sid, "cids": r["cids"], "model_glyphs": r["g"],
                            "real": [{"adv": g[1], "origin": list(g[2][4:])} for g in got]})
         # position vectors (not part of text/adv/matrix): compare char_disp, report as drift only
@@ -726,7 +726,7 @@ def direction_a_selection(ck, fut, ppool):
         for r, findings in zip(chunk, results):
             k += 1
             for key, what, detail in findings:
-                ck.violation(key, what, {"kind": "selection", "rec": r})
+                report(ck, key, what, {"kind": "selection", "rec": r})
             ck.case(len(SEL_CODES[r["seg"]]), ("X", json.dumps(r["f"], sort_keys=True)) if r["umap"] != "none" else None)
             if k % 140 == 3:
                 ck.sample({"type0_font_model": r["f"], "model_selection": {k2: r[k2] for k2 in ("seg", "umap", "vertical", "keyi")},
@@ -787,10 +787,10 @@ def direction_a_usecmap(ck, fut):
                 break
         ck.case(1, ("U", json.dumps(r["ops"])) if used and len(r["ops"]) > 1 else None)
         if bad:
-            ck.violation("usecmap-table", "ops %s: decode of %s gives %s, expected %s" % (r["ops"], bad[0], bad[1], bad[2]),
+            report(ck, "usecmap-table", "ops %s: decode of %s gives %s, expected %s" % (r["ops"], bad[0], bad[1], bad[2]),
                          {"kind": "usecmap", "ops": r["ops"]})
         if json.dumps(shared.code2cid, sort_keys=True) != pristine:
-            ck.violation("usecmap-alias", "ops %s changed the cached CMap %s (use_cmap aliased instead of copying)" % (r["ops"], name),
+            report(ck, "usecmap-alias", "ops %s changed the cached CMap %s (use_cmap aliased instead of copying)" % (r["ops"], name),
                          {"kind": "usecmap", "ops": r["ops"]})
             CMapDB._cmap_cache.pop(name, None)
             shared = CMapDB.get_cmap(name)
@@ -857,7 +857,7 @@ def validate_cid_traces(ck, traces):
             what = "the width table of the font is not what the %s array machine builds (array element %d)" % (tr["wmode"], k)
         else:
             what = "to_unichr/char_width event %s" % json.dumps(tr["codes"][k]) if k < len(tr["codes"]) else "?"
-        ck.violation("trace-rejected:" + ph, "recorded trace of %s (%s) is not a behaviour of CIDFontTrace: %s"
+        report(ck, "trace-rejected:" + ph, "recorded trace of %s (%s) is not a behaviour of CIDFontTrace: %s"
                      % (tr["origin"], tr["seg"], what), {"kind": "trace", "origin": tr["origin"], "phase": ph, "index": k})
         todo = todo[t:]
         if rejected >= 3 and todo:
@@ -926,6 +926,15 @@ def codec_data_check(ck):
 
 
 # =============================================================================================== entry points
+def report(ck, key, what, case=None):
+    """ck.violation with a cap: every unknown violation writes a replay file; a badly broken tree yields tens of
+    thousands of them, so after 60 only a counter is kept (the verdict is already decided)"""
+    if ck.is_known(key) or len(ck.violations) < 60:
+        return ck.violation(key, what, case)
+    ck.extra["violations_beyond_the_first_60"] = ck.extra.get("violations_beyond_the_first_60", 0) + 1
+    return True
+
+
 def quiet():
     from ..realise.fontpdf import quiet as q
     q()
@@ -954,7 +963,7 @@ def run(ck):
 
     def add(label, mod, cfg):
         emit = os.path.join(ck.tmp, label + ".ndjson")
-        jobs[label] = (os.path.join(FONT, mod), cfg, emit, quick, 4)
+        jobs[label] = (os.path.join(FONT, mod), cfg, emit, quick or label in ("place", "sel", "use"), 4)
 
     dv = "<- AllDev" if "IdentityOddRaises" in dev else "<- NoDev"
     add("seg", "MC_CIDFont.tla", cfg_with(ck, "MC_CIDFont.cfg", "seg.cfg",
